@@ -84,6 +84,7 @@ def run(ctx):
     mism, obs = kfront.run(ctx, 'c06', cases, parts=('errors',))
     if obs is None:
         return
+    kfront.parse_corr(ctx, 'c06', cases, obs, max_texts=ctx.n(120, 1200))
     dist = {'outcome': {}, 'mutation': {}, 'wall_s_impl_and_model': round(time.time() - t0, 1)}
     for c, k, o in zip(cases, kinds, obs):
         dist['outcome'][o['outcome']] = dist['outcome'].get(o['outcome'], 0) + 1
